@@ -20,6 +20,8 @@ def span_zero(case):
 def make_case(rng, i):
     if i % 12 == 7:
         return gen_planted.gen_slow(rng)
+    if i % 12 == 11:
+        return gen_planted.gen_repeating(rng)
     case = _make_case(rng, i)
     if i % 5 == 3:
         case = span_zero(case)
